@@ -97,6 +97,11 @@ func c04Guards(native bool) []*actlang.Prog {
 		prog(native, Op{K: actlang.Throw}),
 		prog(native, Op{K: actlang.Set, A: "t", V: "n2"}, Op{K: actlang.Emit, V: "guard-emits"}),
 	}
+	if native {
+		// a native guard that works on the very map it is handed (the repository's own native actions do) and then
+		// says no: what it was handed is the candidate's bindings, not the machine's
+		gs = append(gs, prog(true, Op{K: actlang.InPlace}, Op{K: actlang.Set, A: "a", V: 9.0}, Op{K: actlang.Del, A: "t"}, Op{K: actlang.RetNull}))
+	}
 	if !native {
 		// a script that writes into a structured binding it was handed (an empty object, say) and then says no
 		gs = append(gs, prog(false, Op{K: actlang.MutateDeep, A: "o.x"}, Op{K: actlang.RetNull}))
@@ -136,6 +141,11 @@ func c04Branches(native bool, thorough bool) [][]rstep.ABranch {
 	var first []rstep.ABranch
 	for _, p := range c04Patterns {
 		for _, g := range c04Guards(native) {
+			if p == nil && g != nil && len(g.Ops) > 0 && g.Ops[0].K == actlang.InPlace {
+				// without a pattern the guard is handed the step's own bindings: what an ill-behaved native guard
+				// does to them is the guard's doing (as with native actions that edit their input)
+				continue
+			}
 			for _, t := range c04Targets {
 				first = append(first, rstep.ABranch{Pattern: p, Guard: g, Target: t})
 			}
